@@ -7,8 +7,8 @@ CONSTANTS Scenario, UseLockC, HoldReadLockC, CleanupFirstC
 C(op, id, ver) == [op |-> op, id |-> id, ver |-> ver]
 
 W == IF Scenario = "writers3" THEN {"w1", "w2", "w3"} ELSE {"w1", "w2"}
-R == IF Scenario \in {"readers", "mixed"} THEN {"r1"} ELSE {}
-K == IF Scenario \in {"readers", "mixed", "writers_compact"} THEN {"k1"} ELSE {}
+R == IF Scenario \in {"readers", "mixed", "held", "held_lazy"} THEN {"r1"} ELSE {}
+K == IF Scenario \in {"readers", "mixed", "writers_compact", "held", "held_lazy"} THEN {"k1"} ELSE {}
 
 P == CASE Scenario = "writers" ->
             [t \in {"w1", "w2"} |->
@@ -30,6 +30,12 @@ P == CASE Scenario = "writers" ->
                ELSE IF t = "w2" THEN <<>>
                ELSE IF t = "k1" THEN <<C("compact", "", 0)>>
                ELSE <<C("read", "", 0), C("read", "", 0)>>]
+       [] Scenario \in {"held", "held_lazy"} ->
+            [t \in {"w1", "w2", "k1", "r1"} |->
+               IF t = "w1" THEN <<C("add", "a", 1), C("commit", "", 0), C("delete", "a", 0), C("add", "b", 2), C("commit", "", 0)>>
+               ELSE IF t = "w2" THEN <<>>
+               ELSE IF t = "k1" THEN <<C("compact", "", 0)>>
+               ELSE <<C("read", "", 0), C("fetch", "", 0)>>]
        [] Scenario = "mixed" ->
             [t \in {"w1", "w2", "k1", "r1"} |->
                IF t = "w1" THEN <<C("add", "a", 1), C("commit", "", 0), C("add", "b", 2), C("commit", "", 0)>>
@@ -40,5 +46,6 @@ P == CASE Scenario = "writers" ->
 VARIABLES wlock, mlock, mem, disk, files, wal, pend, pc, loc, hist, serial, nseg, sched
 
 INSTANCE Concurrency WITH Writers <- W, Readers <- R, Compactors <- K, Prog <- P,
-                          UseLock <- UseLockC, HoldReadLock <- HoldReadLockC, CleanupFirst <- CleanupFirstC
+                          UseLock <- UseLockC, HoldReadLock <- HoldReadLockC, CleanupFirst <- CleanupFirstC,
+                          LazyFetch <- (Scenario = "held_lazy")
 =============================================================================
